@@ -424,14 +424,18 @@ func depRules(c *Ctx) {
 	sort.Strings(digestPaths)
 	// evidence in the function: appended / fetched expressions with the range they come from
 	rangeOf := map[types.Object]ast.Expr{} // loop variable -> ranged expression
-	ast.Inspect(fi.Decl.Body, func(n ast.Node) bool {
-		if rs, ok := n.(*ast.RangeStmt); ok && rs.Value != nil {
-			if o := identObj(info, rs.Value); o != nil {
-				rangeOf[o] = rs.X
+	for _, hb := range helperBodies(c, fi) {
+		ast.Inspect(hb, func(n ast.Node) bool {
+			if rs, ok := n.(*ast.RangeStmt); ok && rs.Value != nil {
+				if o := identObj(info, rs.Value); o != nil {
+					rangeOf[o] = rs.X
+				}
 			}
-		}
-		return true
-	})
+			return true
+		})
+	}
+	// parameters of helpers split off the function stand for what the caller passes
+	subst := map[types.Object]string{}
 	evidence := map[string]bool{}
 	// leftmost identifier of a selector / call chain
 	var rootIdent func(e ast.Expr) *ast.Ident
@@ -457,6 +461,9 @@ func depRules(c *Ctx) {
 			rest := strings.TrimPrefix(s, id.Name)
 			return "[" + resolve(rx) + "]" + rest
 		}
+		if v, ok := subst[identObj(info, id)]; ok {
+			return v + strings.TrimPrefix(s, id.Name)
+		}
 		// name the root by its role (its type), not by what the code calls it
 		if t := info.TypeOf(id); t != nil {
 			ts := strings.TrimPrefix(t.String(), "*")
@@ -476,19 +483,42 @@ func depRules(c *Ctx) {
 			pendObj = identObj(info, call.Args[1])
 		}
 	}
-	for _, call := range callsIn(fi.Decl.Body, false) {
-		if fullCalleeName(info, call) == "builtin.append" && pendObj != nil && identObj(info, call.Args[0]) == pendObj {
-			for _, a := range call.Args[1:] {
-				evidence[resolve(a)] = true
+	pendAlias := map[types.Object]bool{}
+	if pendObj != nil {
+		pendAlias[pendObj] = true
+	}
+	var scan func(body *ast.BlockStmt, depth int)
+	scan = func(body *ast.BlockStmt, depth int) {
+		for _, call := range callsIn(body, false) {
+			if fullCalleeName(info, call) == "builtin.append" && len(call.Args) > 0 && pendAlias[identObj(info, call.Args[0])] {
+				for _, a := range call.Args[1:] {
+					evidence[resolve(a)] = true
+				}
 			}
-		}
-		if calleeKey(info, call) == "disk.(*diskCache).Get" && len(call.Args) >= 4 && exprStr(call.Args[1]) == "cache.CAS" {
-			h, sz := resolve(call.Args[2]), resolve(call.Args[3])
-			if strings.TrimSuffix(h, ".Hash") == strings.TrimSuffix(sz, ".SizeBytes") {
-				evidence["get:"+strings.TrimSuffix(h, ".Hash")] = true
+			if k := calleeKey(info, call); (k == "disk.(*diskCache).Get" || k == "disk.(Cache).Get") && len(call.Args) >= 4 && exprStr(call.Args[1]) == "cache.CAS" {
+				h, sz := resolve(call.Args[2]), resolve(call.Args[3])
+				if strings.TrimSuffix(h, ".Hash") == strings.TrimSuffix(sz, ".SizeBytes") {
+					evidence["get:"+strings.TrimSuffix(h, ".Hash")] = true
+				}
+			}
+			// a helper of the package: bind its parameters to the arguments and look inside
+			if h := c.P.Func(calleeKey(info, call)); h != nil && h.Pkg == fi.Pkg && !ast.IsExported(h.Decl.Name.Name) && h.Decl.Body != nil && depth < 3 &&
+				h.Key != "disk.(*diskCache).findMissingCasBlobsInternal" && h.Key != "disk.(*diskCache).get" {
+				for i, a := range call.Args {
+					po := paramObj(h, i)
+					if po == nil {
+						continue
+					}
+					if pendAlias[identObj(info, a)] {
+						pendAlias[po] = true
+					}
+					subst[po] = resolve(a)
+				}
+				scan(h.Decl.Body, depth+1)
 			}
 		}
 	}
+	scan(fi.Decl.Body, 0)
 	wantEv := map[string]string{
 		"ActionResult.StdoutDigest":                   "result.StdoutDigest",
 		"ActionResult.StderrDigest":                   "result.StderrDigest",
